@@ -27,7 +27,8 @@
 (***************************************************************************)
 EXTENDS Integers, Sequences, FiniteSets, TLC, Json
 
-CONSTANTS N,          \* number of headers
+CONSTANTS N,          \* number of headers of the main chain (ids 1..N, number = id)
+          FL, ForkFrom,  \* a competing fork: FL headers (ids N+1..N+FL) with numbers ForkFrom.., branching off main header ForkFrom-1
           BodyCode,   \* decimal number whose k-th digit from the right is the body id of header k (cfg files have no tuples)
           Peers,      \* set of peer ids (strings)
           Honest,     \* peers that only reserve and deliver completely (liveness configuration; {} otherwise)
@@ -40,12 +41,13 @@ CONSTANTS N,          \* number of headers
           Alphabet,   \* "full" | "small"
           Noops       \* TRUE: calls that the code answers without doing anything are part of the alphabet
 
-VARIABLES sched,      \* number of headers scheduled so far
+VARIABLES head,       \* q.headerHead: id of the last header Schedule accepted (0 = none yet)
+          acc,        \* OBSERVABLE: the headers Schedule accepted for download
           pool,       \* blockTaskPool (key set)
           queue,      \* blockTaskQueue: header -> multiplicity (a priority queue may hold an item twice)
           pend,       \* blockPendPool: peer -> sequence of headers (<<>> = no entry)
           done,       \* blockDonePool
-          slot,       \* resultCache by header: [a: allocated, p: Pending counter, b: body id or -1 (no transactions set)]
+          slot,       \* resultCache by block NUMBER: [a: allocated, p: Pending counter, b: body id or -1 (no transactions set), hd: id of the header the container was created for]
           offset,     \* number of results handed out (resultOffset - origin - 1)
           lacks,      \* peer -> set of headers the peer is marked as lacking
           faults,
@@ -53,20 +55,24 @@ VARIABLES sched,      \* number of headers scheduled so far
           delivered,  \* OBSERVABLE: sequence of [h, b] handed out by Results
           old,        \* generation only: peer -> the request it most recently lost (for late deliveries)
           hist        \* generation only
-vars == <<sched, pool, queue, pend, done, slot, offset, lacks, faults, broken, delivered, old, hist>>
+vars == <<head, acc, pool, queue, pend, done, slot, offset, lacks, faults, broken, delivered, old, hist>>
 
-Hdrs == 1..N
+Hdrs == 1..(N + FL)
+Num(h) == IF h <= N THEN h ELSE ForkFrom + (h - N - 1)
+Par(h) == IF h <= N THEN h - 1 ELSE IF h = N + 1 THEN ForkFrom - 1 ELSE h - 1          \* 0 = the sync origin
+NMax == IF FL > 0 /\ ForkFrom + FL - 1 > N THEN ForkFrom + FL - 1 ELSE N
+Nums == 1..NMax
 RECURSIVE Pow10(_)
 Pow10(k) == IF k = 0 THEN 1 ELSE 10 * Pow10(k - 1)
 \* body id of header k; 0 = empty transaction list (empty transaction root); equal ids = identical transaction lists
 Body == [k \in Hdrs |-> (BodyCode \div Pow10(k - 1)) % 10]
-NilSlot == [a |-> FALSE, p |-> 0, b |-> -1]
+NilSlot == [a |-> FALSE, p |-> 0, b |-> -1, hd |-> 0]
 Gen == GenMode # "none"
 
-InitRec == [op |-> "Init", n |-> N, body |-> Body, w |-> W, peers |-> Peers, maxc |-> MaxCount, maxp |-> MaxProc]
+InitRec == [op |-> "Init", n |-> N, fl |-> FL, forkfrom |-> ForkFrom, body |-> Body, w |-> W, peers |-> Peers, maxc |-> MaxCount, maxp |-> MaxProc]
 
-Init == /\ sched = 0 /\ pool = {} /\ queue = [h \in Hdrs |-> 0] /\ pend = [p \in Peers |-> <<>>] /\ done = {}
-        /\ slot = [h \in Hdrs |-> NilSlot] /\ offset = 0 /\ lacks = [p \in Peers |-> {}] /\ faults = 0
+Init == /\ head = 0 /\ acc = {} /\ pool = {} /\ queue = [h \in Hdrs |-> 0] /\ pend = [p \in Peers |-> <<>>] /\ done = {}
+        /\ slot = [n \in Nums |-> NilSlot] /\ offset = 0 /\ lacks = [p \in Peers |-> {}] /\ faults = 0
         /\ broken = FALSE /\ delivered = <<>> /\ old = [p \in Peers |-> <<>>]
         /\ hist = IF Gen THEN <<InitRec>> ELSE <<>>
 
@@ -77,26 +83,55 @@ Range(s) == { s[n] : n \in DOMAIN s }
 PushAll(q, s) == [h \in Hdrs |-> q[h] + Occ(s, h)]
 
 \* ---------------------------------------------------------------- Schedule
-Schedule(k) ==
-   /\ k >= 1 /\ sched + k <= N
-   /\ Tick([op |-> "Schedule", k |-> k])
-   /\ LET new == (sched + 1)..(sched + k) IN
-      /\ pool' = pool \cup new
-      /\ queue' = [h \in Hdrs |-> IF h \in new THEN queue[h] + 1 ELSE queue[h]]
-      /\ sched' = sched + k
+\* queue.Schedule(headers, from): contiguous numbering from `from`, every header linked to the previously accepted one
+\* (q.headerHead, across batches), already scheduled hashes skipped; the first header that breaks a rule ends the batch.
+RECURSIVE Sch(_, _, _, _)
+Sch(st, chunk, i, from) ==
+   IF i > Len(chunk) THEN st
+   ELSE LET h == chunk[i] IN
+        IF Num(h) # from THEN st
+        ELSE IF st.head # 0 /\ st.head # Par(h) THEN st
+        ELSE IF h \in st.pool THEN Sch(st, chunk, i + 1, from)
+        ELSE Sch([head |-> h, pool |-> st.pool \cup {h}, queue |-> [st.queue EXCEPT ![h] = @ + 1], acc |-> st.acc \cup {h}],
+                 chunk, i + 1, from + 1)
+
+Schedule(v, chunk, from) ==
+   /\ Tick([op |-> "Schedule", v |-> v, chunk |-> chunk, from |-> from])
+   /\ LET r == Sch([head |-> head, pool |-> pool, queue |-> queue, acc |-> acc], chunk, 1, from) IN
+      head' = r.head /\ pool' = r.pool /\ queue' = r.queue /\ acc' = r.acc
    /\ UNCHANGED <<pend, done, slot, offset, lacks, faults, broken, delivered, old>>
+
+\* what callers offer.  Honest: the next k headers of the main chain.  Otherwise: such a chunk with one header that does not
+\* link (a fork header of that number) or has the wrong number (the previous header again); a competing fork that starts
+\* below what is queued; a chunk that starts beyond the head.  The last two only once something is queued (the very first
+\* batch of a sync defines the chain and always starts at the origin).
+Nxt == IF head = 0 THEN 1 ELSE Num(head) + 1
+MainChunk(from, k) == [i \in 1..k |-> from + i - 1]
+OnMain == head = 0 \/ head <= N
+\* fork headers that do not link to the main chain (the first fork header does: its parent is a main header)
+ForkAtNum(n) == { h \in (N + 2)..(N + FL) : Num(h) = n }
+Offers ==
+   IF ~OnMain THEN {}
+   ELSE { <<"ok", MainChunk(Nxt, k), Nxt>> : k \in 1..(N - Nxt + 1) }
+        \cup (IF Alphabet = "small" THEN {}
+              ELSE { <<"badlink", [MainChunk(Nxt, k) EXCEPT ![j] = CHOOSE f \in ForkAtNum(Nxt + j - 1) : TRUE], Nxt>>
+                       : <<k, j>> \in { x \in (1..(N - Nxt + 1)) \X (2..N) : x[2] <= x[1] /\ ForkAtNum(Nxt + x[2] - 1) # {} } }
+                   \cup { <<"badnum", [MainChunk(Nxt, k) EXCEPT ![j] = Nxt + j - 2], Nxt>>
+                       : <<k, j>> \in { x \in (1..(N - Nxt + 1)) \X (2..N) : x[2] <= x[1] } }
+                   \cup (IF head # 0 /\ FL > 0 /\ Num(head) >= ForkFrom THEN { <<"fork", [i \in 1..k |-> N + i], ForkFrom>> : k \in 1..FL } ELSE {})
+                   \cup (IF head # 0 /\ Nxt + 1 <= N THEN { <<"gap", MainChunk(Nxt + 1, k), Nxt + 1>> : k \in 1..(N - Nxt) } ELSE {}))
 
 \* ---------------------------------------------------------------- Reserve
 EmptyQ(q) == \A h \in Hdrs : q[h] = 0
-MinQ(q) == CHOOSE h \in Hdrs : q[h] > 0 /\ \A g \in Hdrs : q[g] > 0 => h <= g
-InWindow(h) == h - offset >= 1 /\ h - offset <= W
+MinQ(q) == CHOOSE h \in Hdrs : q[h] > 0 /\ \A g \in Hdrs : q[g] > 0 => (Num(h) < Num(g) \/ (Num(h) = Num(g) /\ h <= g))
+InWindow(h) == Num(h) - offset >= 1 /\ Num(h) - offset <= W
 
 \* resultSlots: limit - finished - pending
 RECURSIVE Finished(_)
-Finished(i) == IF i > W \/ offset + i > N THEN 0
+Finished(i) == IF i > W \/ offset + i > NMax THEN 0
                ELSE IF ~slot[offset + i].a THEN 0
-               ELSE (IF (offset + i) \in done THEN 1 ELSE 0) + Finished(i + 1)
-PendingInWindow == Cardinality({ x \in UNION { { <<p, n>> : n \in DOMAIN pend[p] } : p \in Peers } : pend[x[1]][x[2]] <= offset + W })
+               ELSE (IF slot[offset + i].hd \in done THEN 1 ELSE 0) + Finished(i + 1)
+PendingInWindow == Cardinality({ x \in UNION { { <<p, n>> : n \in DOMAIN pend[p] } : p \in Peers } : Num(pend[x[1]][x[2]]) <= offset + W })
 Space == W - Finished(1) - PendingInWindow
 
 RECURSIVE Go(_, _, _)
@@ -105,9 +140,9 @@ Go(p, cnt, s) ==
    ELSE LET h  == MinQ(s.q)
             q1 == [s.q EXCEPT ![h] = @ - 1] IN
         IF ~InWindow(h) THEN [s EXCEPT !.q = q1, !.err = TRUE]
-        ELSE LET sl == IF s.slot[h].a THEN s.slot ELSE [s.slot EXCEPT ![h] = [a |-> TRUE, p |-> 1, b |-> -1]] IN
+        ELSE LET sl == IF s.slot[Num(h)].a THEN s.slot ELSE [s.slot EXCEPT ![Num(h)] = [a |-> TRUE, p |-> 1, b |-> -1, hd |-> h]] IN
              IF Body[h] = 0
-             THEN Go(p, cnt, [s EXCEPT !.q = q1, !.slot = [sl EXCEPT ![h].p = @ - 1], !.done = @ \cup {h},
+             THEN Go(p, cnt, [s EXCEPT !.q = q1, !.slot = [sl EXCEPT ![Num(h)].p = @ - 1], !.done = @ \cup {h},
                                        !.pool = @ \ {h}, !.space = @ - 1, !.progress = TRUE])
              ELSE IF h \in lacks[p]
              THEN Go(p, cnt, [s EXCEPT !.q = q1, !.slot = sl, !.skip = Append(@, h), !.proc = @ + 1])
@@ -127,7 +162,7 @@ Reserve(p, cnt) ==
            /\ slot' = r.slot /\ done' = r.done /\ pool' = r.pool
            /\ pend' = IF r.err \/ r.send = <<>> THEN pend ELSE [pend EXCEPT ![p] = r.send]
            /\ broken' = (broken \/ r.err)
-   /\ UNCHANGED <<sched, offset, lacks, faults, delivered, old>>
+   /\ UNCHANGED <<head, acc, offset, lacks, faults, delivered, old>>
 
 \* ---------------------------------------------------------------- Deliver
 BodyOf(x) == IF x >= 1 THEN Body[x] ELSE IF x = -1 THEN 0 ELSE -7
@@ -136,7 +171,7 @@ BodyOf(x) == IF x >= 1 THEN Body[x] ELSE IF x = -1 THEN 0 ELSE -7
 RECURSIVE Matched(_, _, _)
 Matched(req, items, i) ==
    IF i > Len(req) \/ i > Len(items) THEN i - 1
-   ELSE IF ~(InWindow(req[i]) /\ slot[req[i]].a) THEN i - 1          \* errInvalidChain
+   ELSE IF ~(InWindow(req[i]) /\ slot[Num(req[i])].a) THEN i - 1          \* errInvalidChain
    ELSE IF BodyOf(items[i]) # Body[req[i]] THEN i - 1               \* errInvalidBody
    ELSE Matched(req, items, i + 1)
 
@@ -150,7 +185,9 @@ DeliverCore(p, items) ==
         /\ pend' = [pend EXCEPT ![p] = <<>>]
         /\ done' = done \cup Range(good)
         /\ pool' = pool \ Range(good)
-        /\ slot' = [h \in Hdrs |-> IF h \in Range(good) THEN [slot[h] EXCEPT !.p = @ - Occ(good, h), !.b = Body[h]] ELSE slot[h]]
+        /\ slot' = [n \in Nums |-> LET G == { i \in DOMAIN good : Num(good[i]) = n } IN
+                                    IF G = {} THEN slot[n]
+                                    ELSE [slot[n] EXCEPT !.p = @ - Cardinality(G), !.b = Body[good[CHOOSE i \in G : \A j \in G : j <= i]]]]
         /\ queue' = PushAll(queue, rest)
         /\ lacks' = IF items = <<>> THEN [lacks EXCEPT ![p] = @ \cup Range(req)] ELSE lacks
 
@@ -179,7 +216,7 @@ Deliver(p, v) ==
    /\ Tick([op |-> "Deliver", p |-> p, v |-> v[1], items |-> v[2]])
    /\ IF IsFault(p, v) THEN Charge ELSE faults' = faults
    /\ DeliverCore(p, v[2])
-   /\ UNCHANGED <<sched, offset, broken, delivered, old>>
+   /\ UNCHANGED <<head, acc, offset, broken, delivered, old>>
 
 \* ---------------------------------------------------------------- cancel / expire / revoke
 GiveBack(p, name) ==
@@ -190,7 +227,7 @@ GiveBack(p, name) ==
    /\ queue' = PushAll(queue, pend[p])
    /\ pend' = [pend EXCEPT ![p] = <<>>]
    /\ old' = IF Gen /\ pend[p] # <<>> THEN [old EXCEPT ![p] = pend[p]] ELSE old
-   /\ UNCHANGED <<sched, pool, done, slot, offset, lacks, broken, delivered>>
+   /\ UNCHANGED <<head, acc, pool, done, slot, offset, lacks, broken, delivered>>
 
 Cancel(p) == GiveBack(p, "Cancel")
 Expire(p) == GiveBack(p, "Expire")
@@ -198,7 +235,7 @@ Revoke(p) == GiveBack(p, "Revoke")
 
 \* ---------------------------------------------------------------- Results
 RECURSIVE Processable(_)
-Processable(i) == IF i > W \/ offset + i > N THEN i - 1
+Processable(i) == IF i > W \/ offset + i > NMax THEN i - 1
                   ELSE IF ~slot[offset + i].a \/ slot[offset + i].p > 0 THEN i - 1
                   ELSE Processable(i + 1)
 
@@ -206,15 +243,15 @@ Results ==
    LET n == IF Processable(1) > MaxProc THEN MaxProc ELSE Processable(1) IN     \* the batch limit: the rest stays in the window
    /\ (n = 0 => Noops)
    /\ Tick([op |-> "Results"])
-   /\ delivered' = delivered \o [i \in 1..n |-> [h |-> offset + i, b |-> IF slot[offset + i].b = -1 THEN 0 ELSE slot[offset + i].b]]
-   /\ done' = done \ ((offset + 1)..(offset + n))
-   /\ slot' = [h \in Hdrs |-> IF h \in (offset + 1)..(offset + n) THEN NilSlot ELSE slot[h]]
+   /\ delivered' = delivered \o [i \in 1..n |-> [h |-> slot[offset + i].hd, b |-> IF slot[offset + i].b = -1 THEN 0 ELSE slot[offset + i].b]]
+   /\ done' = done \ { slot[offset + i].hd : i \in 1..n }
+   /\ slot' = [m \in Nums |-> IF m \in (offset + 1)..(offset + n) THEN NilSlot ELSE slot[m]]
    /\ offset' = offset + n
-   /\ UNCHANGED <<sched, pool, queue, pend, lacks, faults, broken, old>>
+   /\ UNCHANGED <<head, acc, pool, queue, pend, lacks, faults, broken, old>>
 
 \* ---------------------------------------------------------------- next-state relations
 NextFull ==
-   \/ \E k \in 1..N : Schedule(k)
+   \/ \E o \in Offers : Schedule(o[1], o[2], o[3])
    \/ \E p \in Peers, c \in 1..MaxCount : Reserve(p, c)
    \/ \E p \in Peers : \E v \in Variants(p) : Deliver(p, v)
    \/ \E p \in Peers : Cancel(p) \/ Expire(p) \/ Revoke(p)
@@ -222,7 +259,7 @@ NextFull ==
 
 \* small alphabet for bounded-exhaustive generation
 NextSmall ==
-   \/ \E k \in {2, N} : Schedule(k)
+   \/ \E o \in { x \in Offers : Len(x[2]) \in {2, N - Nxt + 1} } : Schedule(o[1], o[2], o[3])
    \/ \E p \in Peers : Reserve(p, MaxCount)
    \/ \E p \in Peers : \E v \in Variants(p) : Deliver(p, v)
    \/ \E p \in Peers : Expire(p)
@@ -238,13 +275,14 @@ DeliveredSet == { delivered[i].h : i \in DOMAIN delivered }
 InFlightCount(h) == Cardinality({ x \in UNION { { <<p, n>> : n \in DOMAIN pend[p] } : p \in Peers } : pend[x[1]][x[2]] = h })
 
 \* "strictly in ascending, gap-free order starting at the sync origin"
-InOrderGapFree == \A i \in DOMAIN delivered : delivered[i].h = i
+InOrderGapFree == \A i \in DOMAIN delivered : /\ delivered[i].h \in Hdrs /\ Num(delivered[i].h) = i
+                                                /\ Par(delivered[i].h) = (IF i = 1 THEN 0 ELSE delivered[i - 1].h)
 \* "each exactly once"
 EachOnce == \A i, j \in DOMAIN delivered : i # j => delivered[i].h # delivered[j].h
 \* "only with a transaction list that matches the header's transaction root"
 BodyMatchesHeader == \A i \in DOMAIN delivered : delivered[i].h \in Hdrs /\ delivered[i].b = Body[delivered[i].h]
 \* "work taken by a peer that stalls, fails, lies or disconnects is handed to others": nothing scheduled is forgotten
-WorkNeverLost == \A h \in 1..sched : h \notin DeliveredSet =>
+WorkNeverLost == \A h \in acc : h \notin DeliveredSet =>
                     queue[h] + InFlightCount(h) + (IF h \in done THEN 1 ELSE 0) = 1
 \* no block is being fetched from two peers at once
 NoDoubleAssign == \A h \in Hdrs : InFlightCount(h) <= 1
@@ -253,17 +291,17 @@ NeverBroken == ~broken
 
 \* design-layer sanity (not part of the statement): a slot is complete exactly when its header is in the done pool,
 \* and the task pool is what is scheduled and neither complete nor handed out
-ReadyMeansDone == \A h \in Hdrs : h > offset => ((slot[h].a /\ slot[h].p <= 0) <=> h \in done)
-PoolIsOpenWork == pool = { h \in 1..sched : h \notin done /\ h > offset }
+ReadyMeansDone == \A n \in Nums : n > offset => ((slot[n].a /\ slot[n].p <= 0) <=> (slot[n].a /\ slot[n].hd \in done))
+PoolIsOpenWork == pool = { h \in acc : h \notin done /\ Num(h) > offset }
 
-AllDelivered == sched = N /\ Len(delivered) = N
+AllDelivered == (1..N) \subseteq acc /\ Len(delivered) = N
 
 \* ---------------------------------------------------------------- liveness
 \* "the full range completes as long as some peer eventually answers honestly": every request is eventually answered or
 \* times out, finitely many faults, one honest peer keeps asking.
 Resolved(p) == (\E v \in Variants(p) : Deliver(p, v)) \/ Cancel(p) \/ Expire(p) \/ Revoke(p)
 LiveSpec == /\ Init /\ [][Next]_vars
-            /\ WF_vars(\E k \in 1..N : Schedule(k))
+            /\ WF_vars(\E o \in { x \in Offers : x[1] = "ok" } : Schedule(o[1], o[2], o[3]))
             /\ WF_vars(Results)
             /\ \A p \in Peers : WF_vars(Resolved(p))
             /\ \A p \in Honest : WF_vars(\E c \in 1..MaxCount : Reserve(p, c))
